@@ -536,6 +536,12 @@ impl Litep2p {
         self.transport_manager.add_known_address(peer, address)
     }
 
+    /// Verification hook: read access to the transport manager (address stores, listen set).
+    #[cfg(feature = "verif")]
+    pub fn verif_transport_manager(&self) -> &TransportManager {
+        &self.transport_manager
+    }
+
     /// Poll next event.
     ///
     /// This function must be called in order for litep2p to make progress.
